@@ -7,7 +7,7 @@ well-formed documents, (b) one crafted family per production and per well-formed
 calls ill-formed and the implementation accepts with empty rest.  The specification itself is
 cross-validated against expat on every case; disagreements are reported separately ("oracle
 disagreement") and never as violations of the property."""
-import json, os, sys, time
+import json, re, os, sys, time
 from . import lib, wfcommon as W
 sys.path.insert(0, os.path.join(lib.VERIF, 'tools', 'gen'))
 import expat_oracle, peggen
@@ -33,19 +33,21 @@ def classify(run, fails):
             known.setdefault('WFNS' + f['ns'][6:], []).append(f)
         else:
             todo.append(f)
-    # D04: repair the names and ask the specification again
-    rep = [W.repair_d04(f['input']) for f in todo]
-    sv = W.spec_verdicts(run, rep) if rep else []
+    # D04: ask the relaxed specification (Spec.XmlWFRelaxed, generated from Spec.XmlWF: NameChar* at exactly
+    # the Name positions the finding names).  Ill-formed per the specification and well-formed once nothing
+    # but that relaxation is granted = an instance of D04.  All later classes are judged on top of that
+    # relaxation (a document may combine D04 with another known class).
+    sv = W.relaxed_verdicts(run, [f['input'] for f in todo]) if todo else []
     todo2 = []
-    for f, r, (x10, ns, _) in zip(todo, rep, sv):
-        if r != f['input'] and x10 == 'wf':
+    for f, (x10, ns, _) in zip(todo, sv):
+        if x10 == 'wf':
             known.setdefault('D04', []).append(f)
         else:
             todo2.append(f)
     # WF13: drop the references to entities whose replacement text contains '<' or '&'
     rep2 = []
     for f in todo2:
-        s = W.repair_d04(f['input'])
+        s = f['input']
         if W.has_reference_to_markup_entity(s):
             ents = W.entity_literals(s)
             for nm in ents:
@@ -53,14 +55,42 @@ def classify(run, fails):
             rep2.append(s)
         else:
             rep2.append(None)
-    sv2 = W.spec_verdicts(run, [r for r in rep2 if r is not None]) if any(r is not None for r in rep2) else []
+    sv2 = W.relaxed_verdicts(run, [r for r in rep2 if r is not None]) if any(r is not None for r in rep2) else []
     it = iter(sv2)
+    rest0 = []
     for f, r in zip(todo2, rep2):
         if r is not None:
             x10, ns, _ = next(it)
             if x10 == 'wf':
                 known.setdefault('WF13', []).append(f); continue
-        rest.append(f)
+        rest0.append(f)
+    # WF13 (second form): the literal of a referenced entity holds markup ('<') that matches the grammar of
+    # `content` but violates a well-formedness constraint INSIDE that markup (e.g. a duplicate attribute in a
+    # tag written in the entity literal): the implementation keeps entity content as text and never builds
+    # it.  Narrow: the literal alone, wrapped in an element, is ill-formed per the specification, and the
+    # document without its entity references is well-formed.
+    probes, owners = [], []
+    for k, f in enumerate(rest0):
+        s = f['input']
+        ents = W.entity_literals(s)
+        head = W.prolog_head(s)
+        stripped = s
+        for nm in ents:
+            stripped = stripped.replace('&%s;' % nm, '')
+        for nm, lit in ents.items():
+            if '<' in lit and ('&%s;' % nm) in s:
+                probes.append(re.sub(r'<!DOCTYPE\s+\S+', '<!DOCTYPE x', head, count=1) + '<x>' + lit + '</x>'); owners.append((k, 'lit'))
+        probes.append(stripped); owners.append((k, 'stripped'))
+    pv = W.relaxed_verdicts(run, probes) if probes else []
+    bad_lit, ok_stripped = set(), set()
+    for (k, kind), (x10, ns, _) in zip(owners, pv):
+        if kind == 'lit' and x10 != 'wf': bad_lit.add(k)
+        if kind == 'stripped' and x10 == 'wf': ok_stripped.add(k)
+    for k, f in enumerate(rest0):
+        if k in bad_lit and k in ok_stripped:
+            known.setdefault('WF13', []).append(f)
+        else:
+            rest.append(f)
     return known, rest
 
 def evaluate(run, cases, tag):
@@ -180,7 +210,7 @@ def check(run):
         run.notes.append('VERIF_SEARCH_ONLY set: proof step skipped')
     else:
         proved, _ = lib.proof_step(run, 'C02', ['T1', 'T2'])
-    okr, mok, sok = lib.build_binaries(run, model_areas=[], spec_areas=['wf'])
+    okr, mok, sok = lib.build_binaries(run, model_areas=[], spec_areas=['wf', 'wfr'])
     if not (okr and sok.get('wf')):
         return run.finish(level='proof', rule='(binaries did not build)')
     fails = []
